@@ -168,7 +168,6 @@ def c16_jobs(tier):
             jobs.append(J("ast", "ZZ_C16_tree", order=order, depth=1, width=2, maxn=1, kinds=2, timeout_s=7200))
             jobs.append(J("ast", "ZZ_C16_tree", order=order, depth=1, width=2, maxn=1, kinds=3, timeout_s=7200))
             jobs.append(J("ast", "ZZ_C16_tree", order=order, depth=0, width=3, maxn=2, kinds=7, timeout_s=7200))
-            jobs.append(J("ast", "ZZ_C16_tree", order=order, depth=2, width=2, maxn=1, kinds=1, timeout_s=7200))
         jobs.append(J("ast", "ZZ_C16_shared", order=order))
     # a variable-free item of ANY size encodes: the header function never reports an error within the limit (harness shared with C13)
     jobs += [J("ast", "ZZ_C13_header", typ=t) for t in range(14)]
@@ -641,8 +640,8 @@ _b("C15",
    ["declarations preceded by whitespace (position shift is C08)", "counts above 4"])
 _b("C16",
    "leaves n<=2 and lists depth 1 width<=2 / depth 0 width 3 over 4 kinds, every variable/ellipsis placement, x 3 map orders; shared sub-items; duplicate names through fills; ASCII k<=3 arbitrary bytes; messages around a bare item of 10 kinds with/without a variable, directly and inside 1-2 lists; header routine for every size (never an error within the limit)",
-   "n<=3; width<=3 over 7 kinds; depth 2",
-   ["constants other than the fixed menu (their independence is C09)"])
+   "n<=3; depth 1 width 2 over 2 and 3 kinds; depth 0 width 3 over 7 kinds with n<=2",
+   ["constants other than the fixed menu (their independence is C09)", "lists nested three levels deep (more than 10 million shapes: did not finish in 2 h)"])
 _b("C17",
    "13 operations (print, encode, list, fill, ellipsis expansion, producers, both parsers on accepted, rejected and deeply nested input, control messages) on one template and one complete message with symbolic constants x 4 map orders; objects nobody has observed yet (7 bare items, 1 message); results handed to callers (4 scenarios); histories b, a, b for every pair of operations; natively every operation in 8 goroutines x 25 iterations under the race detector",
    "same",
